@@ -589,7 +589,9 @@ def ranges_family(ctx):
         for t in itertools.combinations(base, n):
             sets.append("".join(t))
     sets += ["abc", "abcd", "abd", "acd", "0123456789", "Z[\\]^", "+,-./", ",-.", "-./", "+,-", "aabbc", "cba", "\x00\x01\x02", "\x01\x03",
-             "xyz{|}", "\t\n", "a\nb"]
+             "xyz{|}", "\t\n", "a\nb",
+             # the smallest characters of all: the run grouping starts from an initial key below chr(0)
+             "\x01abc", "\x00abc", "\x01\x03\x05", "\x00\x02\x03\x04", "\x00\x01ab", "\x00ab", "\x01 ab", "\x00\x01\x02a", "\x02abc"]
     pre = PRE + ("Definition runc (cs : list char) := (collapse_items cs, collapse_str cs, "
                  "match read_class (length (collapse_str cs)) (collapse_str cs) with Some l => l | None => [CI_cat true CatDigit] end, "
                  "expand_items (collapse_items cs), escape_range_str cs).\n")
